@@ -443,6 +443,11 @@ func sivKeysetSection(x *h.X) {
 	if disabled == primary {
 		return
 	}
+	// a key that is not ENABLED is DISABLED or DESTROYED (its key data is still in the keyset): both are unusable
+	off := tinkpb.KeyStatusType_DISABLED
+	if disabled >= 0 && x.Choose("non-enabled-status", 2) == 1 {
+		off = tinkpb.KeyStatusType_DESTROYED
+	}
 	var es []tk.Entry
 	for i := range kbs {
 		k, err := newSIVKey(kbs[i], vs[i], eids[i])
@@ -452,7 +457,7 @@ func sivKeysetSection(x *h.X) {
 		}
 		st := tinkpb.KeyStatusType_ENABLED
 		if i == disabled {
-			st = tinkpb.KeyStatusType_DISABLED
+			st = off
 		}
 		es = append(es, tk.Entry{Key: k, ID: eids[i], Status: st, Primary: i == primary})
 	}
@@ -467,7 +472,7 @@ func sivKeysetSection(x *h.X) {
 		return
 	}
 	x.NonTrivial()
-	cfg := fmt.Sprintf("AES-SIV keyset primary=%d disabled=%d", primary, disabled)
+	cfg := fmt.Sprintf("AES-SIV keyset primary=%d disabled=%d(%v)", primary, disabled, off)
 	for _, n := range []int{0, 1, 16, 17, 40} {
 		for _, ai := range []int{0, 1, 6} {
 			pt, ad := ref.Pattern(2, n), adOf(3, ai)
@@ -569,7 +574,7 @@ func sivCollisionSection(x *h.X) {
 	}
 	rawSt := tinkpb.KeyStatusType_ENABLED
 	if rawDisabled {
-		rawSt = tinkpb.KeyStatusType_DISABLED
+		rawSt = []tinkpb.KeyStatusType{tinkpb.KeyStatusType_DISABLED, tinkpb.KeyStatusType_DESTROYED}[(ai+n)%2]
 	}
 	// primary: 0 = the RAW key, 1 = the prefixed key (a disabled key cannot be primary)
 	if rawDisabled && primary == 0 {
